@@ -1028,6 +1028,198 @@ fn random_case(g: &mut Gen, srv: usize, n_addrs: usize) -> Case {
     Case { srv, addr_ix: g.rng.below(n_addrs as u64) as usize, items, shape, log: false, kind: "random".into() }
 }
 
+
+// ------------------------------------------------------------------ registry churn: requests in flight while processors come and go
+//
+// Case line `R|<t|h>|ev ev …`: a fresh `Resources`, processors registered through the real `Resources::register`
+// (`r<id>.<s|n>.<claims>`: sub-resource or not, the path numbers it answers), dropped (`d<id>`: the component goes
+// away, its `Weak` dangles until the next registration prunes it), complete requests (`q<path>`), and one request
+// held IN FLIGHT inside its processor (`b<path>` … `f`) while the events between happen. Mode `t`: a `Server::run`
+// listener of its own over loopback TCP; mode `h`: `Server::handle_request` directly. Path 0 is `/status`.
+
+#[derive(Clone, Debug, PartialEq)]
+enum REv { Reg(u32, bool, Vec<u32>), Drop(u32), Req(u32), Begin(u32), Finish }
+
+fn rev_txt(e: &REv) -> String {
+    match e { REv::Reg(id, sub, cl) => format!("r{id}.{}.{}", if *sub { 's' } else { 'n' }, join(cl.iter(), "+")), REv::Drop(id) => format!("d{id}"), REv::Req(p) => format!("q{p}"), REv::Begin(p) => format!("b{p}"), REv::Finish => "f".into() }
+}
+fn parse_rev(t: &str) -> Option<REv> {
+    let (k, r) = t.split_at(1);
+    match k {
+        "r" => { let f: Vec<&str> = r.split('.').collect(); if f.len() != 3 { return None; } Some(REv::Reg(f[0].parse().ok()?, f[1] == "s", if f[2].is_empty() { vec![] } else { f[2].split('+').map(|x| x.parse().ok()).collect::<Option<Vec<u32>>>()? })) }
+        "d" => Some(REv::Drop(r.parse().ok()?)), "q" => Some(REv::Req(r.parse().ok()?)), "b" => Some(REv::Begin(r.parse().ok()?)), "f" => Some(REv::Finish), _ => None,
+    }
+}
+fn rpath(p: u32) -> String { if p == 0 { "/status".into() } else { format!("/c/p{p}") } }
+
+/// A request processor of a test component: answers the paths it claims with its own name; a request that carries
+/// `?slow` is held (after telling the engine that it has arrived) until the engine lets it go.
+struct TestProc { id: u32, claims: Vec<String>, entered: Mutex<std::sync::mpsc::Sender<u32>>, release: Arc<tokio::sync::Semaphore> }
+impl rotonda::http::ProcessRequest for TestProc {
+    fn process_request<'life0, 'life1, 'async_trait>(&'life0 self, request: &'life1 hyper::Request<hyper::Body>)
+        -> std::pin::Pin<Box<dyn std::future::Future<Output = Option<hyper::Response<hyper::Body>>> + Send + 'async_trait>>
+    where 'life0: 'async_trait, 'life1: 'async_trait, Self: 'async_trait {
+        Box::pin(async move {
+            if !self.claims.iter().any(|c| c == request.uri().path()) { return None; }
+            if request.uri().query() == Some("slow") {
+                let _ = self.entered.lock().unwrap().send(self.id);
+                if let Ok(p) = self.release.acquire().await { p.forget(); }
+            }
+            Some(hyper::Response::builder().header("Content-Type", "text/plain").body(format!("P{}", self.id).into()).unwrap())
+        })
+    }
+}
+
+fn registry_case(rec: &mut Recorder, rt: &tokio::runtime::Runtime, tcp: bool, evs: &[REv], kind: &str) {
+    use rotonda::verif::http as vh;
+    let _g = rt.enter();
+    let resources = vh::Resources::default();
+    let metrics: vh::MetricsCollection = Default::default();
+    let panics_from = PANICS.lock().unwrap().len();
+    let mut fails: Vec<String> = vec![];
+    // mode t: the production server over this registry, on a port of its own
+    let mut addr: Option<SocketAddr> = None;
+    if tcp {
+        for _ in 0..20 {
+            let port = free_port();
+            let server: rotonda::http::Server = toml::from_str(&format!("http_listen = \"127.0.0.1:{port}\"\ncompress_responses = false\n")).unwrap();
+            if server.run(metrics.clone(), resources.clone()).is_ok() { addr = Some(SocketAddr::from(([127, 0, 0, 1], port))); break; }
+        }
+        if addr.is_none() { fails.push("httpserver:listener:refused no port for the registry server".into()); }
+    }
+    let (etx, erx) = std::sync::mpsc::channel::<u32>();
+    let release = Arc::new(tokio::sync::Semaphore::new(0));
+    let mut procs: BTreeMap<u32, Arc<TestProc>> = BTreeMap::new();
+    // the engine's own reading of who may answer: registered and not yet dropped, claiming the path
+    let mut live: BTreeMap<u32, Vec<u32>> = BTreeMap::new();
+    let mut toks: Vec<String> = vec![];
+    // one answer: `P<id>` / `404` / `S` (/status) / `405`, `X` when there is none
+    let tok_of = |status: u16, body: &[u8]| -> String { match status { 200 if body.starts_with(b"P") => String::from_utf8_lossy(body).into_owned(), 200 => "S".into(), n => n.to_string() } };
+    let judge = |tok: &str, p: u32, live_at: &BTreeMap<u32, Vec<u32>>, fails: &mut Vec<String>| {
+        let claimants: Vec<u32> = live_at.iter().filter(|(_, c)| c.contains(&p)).map(|(i, _)| *i).collect();
+        if tok == "X" { fails.push(format!("httpserver:registry:no-response GET {} got no response", rpath(p))); }
+        else if p == 0 { if tok != "S" { fails.push(format!("httpserver:registry:wrong-processor /status answered {tok}")); } }
+        else if let Some(id) = tok.strip_prefix('P').and_then(|x| x.parse::<u32>().ok()) { if !claimants.contains(&id) { fails.push(format!("httpserver:registry:wrong-processor GET {} answered by processor {id}, which is gone or does not serve that path (serving it: {:?})", rpath(p), claimants)); } }
+        else if tok == "404" { if !claimants.is_empty() { fails.push(format!("httpserver:registry:wrong-processor GET {} answered 404 although {:?} serve it", rpath(p), claimants)); } }
+        else { fails.push(format!("httpserver:registry:unlawful-answer GET {} answered {tok}", rpath(p))); }
+    };
+    // a complete exchange
+    let ask = |p: u32, slow: bool| -> Box<dyn FnOnce() -> String + Send> {
+        let target = format!("{}{}", rpath(p), if slow { "?slow" } else { "" });
+        if let Some(a) = addr {
+            Box::new(move || {
+                let req = format!("GET {target} HTTP/1.1\r\nHost: r\r\nConnection: close\r\n\r\n").into_bytes();
+                match exchange(a, &[Act::Write(req)], &[false]) { Ok(ex) => { let (rs, _) = parse_responses(&ex.received, &[false]); match rs.first() { Some(r) => match r.status { 200 if r.body.starts_with(b"P") => String::from_utf8_lossy(&r.body).into_owned(), 200 => "S".into(), n => n.to_string() }, None => "X".into() } } Err(_) => "X".into() }
+            })
+        } else { Box::new(move || target) }
+    };
+    let run_h = |target: String, resources: vh::Resources, metrics: vh::MetricsCollection| async move {
+        let req = hyper::Request::builder().uri(target).body(hyper::Body::empty()).unwrap();
+        let res = vh::handle_request(req, &metrics, &resources).await;
+        let status = res.status().as_u16();
+        let body = hyper::body::to_bytes(res.into_body()).await.map(|b| b.to_vec()).unwrap_or_default();
+        (status, body)
+    };
+    let mut inflight: Option<(u32, BTreeMap<u32, Vec<u32>>, std::thread::JoinHandle<String>)> = None;
+    let mut held: Option<u32> = None;
+    let mut lingering: Option<(u32, Vec<u32>)> = None;
+    for ev in evs {
+        match ev {
+            REv::Reg(id, sub, claims) => {
+                let p = Arc::new(TestProc { id: *id, claims: claims.iter().map(|c| rpath(*c)).collect(), entered: Mutex::new(etx.clone()), release: release.clone() });
+                let w: std::sync::Weak<dyn rotonda::http::ProcessRequest> = { let a: Arc<dyn rotonda::http::ProcessRequest> = p.clone(); Arc::downgrade(&a) };
+                resources.register(w, format!("c{id}").into(), "test", &format!("/c/p{}", claims.first().copied().unwrap_or(0)), *sub);
+                procs.insert(*id, p);
+                live.insert(*id, claims.clone());
+            }
+            // a processor with a request inside it stays alive (the request holds the upgraded `Arc`) until that request is done
+            REv::Drop(id) => { procs.remove(id); if held == Some(*id) { if let Some(c) = live.get(id) { lingering = Some((*id, c.clone())); } } live.remove(id); }
+            REv::Req(p) => {
+                let f = ask(*p, false);
+                let tok = if addr.is_some() { f() } else { let t = f(); match rt.block_on(async { tokio::spawn(run_h(t, resources.clone(), metrics.clone())).await }) { Ok((st, b)) => tok_of(st, &b), Err(_) => "X".into() } };
+                let mut may = live.clone(); if let Some((i, c)) = &lingering { may.insert(*i, c.clone()); }
+                judge(&tok, *p, &may, &mut fails);
+                toks.push(tok);
+            }
+            REv::Begin(p) => {
+                if inflight.is_some() { continue; }
+                let f = ask(*p, true);
+                let h = if addr.is_some() { std::thread::spawn(f) } else {
+                    let t = f(); let (res, met, handle) = (resources.clone(), metrics.clone(), rt.handle().clone());
+                    std::thread::spawn(move || match handle.block_on(async { tokio::spawn(run_h(t, res, met)).await }) { Ok((st, b)) => match st { 200 if b.starts_with(b"P") => String::from_utf8_lossy(&b).into_owned(), 200 => "S".into(), n => n.to_string() }, Err(_) => "X".into() })
+                };
+                // only go on once the request sits inside its processor (a path nobody serves, or /status, is answered at once)
+                let claimed = *p != 0 && live.values().any(|c| c.contains(p));
+                if claimed { match erx.recv_timeout(Duration::from_secs(20)) { Ok(id) => held = Some(id), Err(_) => fails.push("httpserver:registry:no-response the request never reached its processor".into()) } }
+                // nobody holds it: it is answered now (its answer is reported at `f`, as the model does)
+                let h = if claimed { h } else { let tok = h.join().unwrap_or_else(|_| "X".into()); std::thread::spawn(move || tok) };
+                inflight = Some((*p, live.clone(), h));
+            }
+            REv::Finish => {
+                if let Some((p, live_at, h)) = inflight.take() {
+                    if held.is_some() { release.add_permits(1); }
+                    let tok = h.join().unwrap_or_else(|_| "X".into());
+                    judge(&tok, p, &live_at, &mut fails);
+                    toks.push(tok);
+                    held = None; lingering = None;
+                }
+            }
+        }
+    }
+    if let Some((p, live_at, h)) = inflight.take() { if held.is_some() { release.add_permits(1); } let tok = h.join().unwrap_or_else(|_| "X".into()); judge(&tok, p, &live_at, &mut fails); toks.push(tok); }
+    let new_panics: Vec<String> = PANICS.lock().unwrap()[panics_from..].to_vec();
+    if let Some(p) = new_panics.last() { let site = p.split(' ').next().unwrap_or("?").rsplit('/').next().unwrap_or("?").to_string(); fails.insert(0, format!("httpserver:registry:panic:{site} {} request(s) made the server panic while the registry changed ({p})", new_panics.len())); }
+    let oracle = if fails.is_empty() { "ok".to_string() } else { format!("fail {}", fails[0]) };
+    rec.bump(&format!("registry.{kind}.{}", if tcp { "tcp" } else { "direct" }));
+    let churn_in_flight = { let b = evs.iter().position(|e| matches!(e, REv::Begin(_))); let f = evs.iter().position(|e| matches!(e, REv::Finish)); match (b, f) { (Some(b), Some(f)) => evs[b..f].iter().any(|e| matches!(e, REv::Reg(..) | REv::Drop(_))), _ => false } };
+    if churn_in_flight { rec.bump("registry.churn-while-in-flight"); }
+    rec.case(format!("R|{}|{}", if tcp { 't' } else { 'h' }, join(evs.iter().map(rev_txt), " ")), toks.join(" "), oracle, churn_in_flight);
+}
+
+/// the enumerated interleavings: 0-3 dead processors, the slow processor at the head or the tail of the list, a
+/// registration (sub-resource or not) before / while / after its request is in flight, then the same and other paths again
+fn registry_corpus() -> Vec<Vec<REv>> {
+    let mut out = vec![];
+    for dead in 0..4u32 { for at_head in [false, true] { for timing in 0..3 { for newsub in [false, true] { for drop_during in [false, true] {
+        let mut e = vec![REv::Reg(1, false, vec![1, 9])];
+        for k in 0..dead { e.push(REv::Reg(10 + k, k % 2 == 1, vec![5, 9])); }
+        e.push(REv::Reg(2, at_head, vec![2, 9]));     // the slow one: head (sub-resource) or tail
+        for k in 0..dead { e.push(REv::Drop(10 + k)); }
+        e.push(REv::Req(2)); e.push(REv::Req(9));
+        let newreg = REv::Reg(3, newsub, vec![3, 9]);
+        if timing == 0 { e.push(newreg.clone()); }
+        e.push(REv::Begin(2));
+        if timing == 1 { e.push(newreg.clone()); }
+        if drop_during { e.push(REv::Drop(1)); }
+        e.push(REv::Req(1));
+        e.push(REv::Finish);
+        if timing == 2 { e.push(newreg); }
+        for p in [2, 2, 2, 1, 3, 9, 5, 7, 0, 2] { e.push(REv::Req(p)); }
+        out.push(e);
+    } } } } }
+    out
+}
+
+fn registry_random(g: &mut Gen) -> Vec<REv> {
+    let mut e = vec![];
+    let mut next_id = 1u32;
+    let mut live: Vec<u32> = vec![];
+    let mut in_flight = false;
+    let n = g.rng.range(6, 22);
+    for _ in 0..n {
+        match g.rng.below(10) {
+            0..=2 => { let k = g.rng.range(1, 3); let claims: Vec<u32> = (0..k).map(|_| g.rng.range(1, 6) as u32).collect(); e.push(REv::Reg(next_id, g.rng.chance(1, 3), claims)); live.push(next_id); next_id += 1; }
+            3 | 4 if !live.is_empty() => { let i = g.rng.below(live.len() as u64) as usize; e.push(REv::Drop(live.remove(i))); }
+            5 if !in_flight => { e.push(REv::Begin(g.rng.range(1, 6) as u32)); in_flight = true; }
+            6 if in_flight => { e.push(REv::Finish); in_flight = false; }
+            _ => e.push(REv::Req(g.rng.below(8) as u32)),
+        }
+    }
+    if in_flight { e.push(REv::Finish); }
+    for p in 0..7 { e.push(REv::Req(p)); }
+    e
+}
+
 // ------------------------------------------------------------------ running
 
 struct Done { case_line: String, j: Judged, nontrivial: bool, dist: Vec<String> }
@@ -1134,6 +1326,7 @@ fn main() {
     if let Some(path) = &args.replay {
         for line in verif_harness::replay_cases(path) {
             if line.contains("|listen-conflict|") { continue; }
+            if let Some(r) = line.strip_prefix("R|") { let tcp = r.starts_with('t'); if let Some(evs) = r.get(2..).map(|x| x.split(' ').filter(|t| !t.is_empty()).map(parse_rev).collect::<Option<Vec<REv>>>()).flatten() { registry_case(&mut rec, &rt, tcp, &evs, "replay"); } continue; }
             let Some(case) = parse_case(&line, &srvs) else { rec.bump("replay.unparsable-line"); continue };
             LOG_ON.store(case.log, Ordering::SeqCst);
             let d = run_one(&case, &srvs, &mut controls);
@@ -1191,6 +1384,10 @@ fn main() {
         record(&mut rec, d);
     }
     rec.variant("aegzip", if gz_q0 == Some(true) { "as-written" } else { "repaired" });
+    // registry churn: every enumerated interleaving directly, every fourth also through a listener of its own; random histories
+    for (i, evs) in registry_corpus().iter().enumerate() { registry_case(&mut rec, &rt, false, evs, "enumerated"); if i % 4 == 0 { registry_case(&mut rec, &rt, true, evs, "enumerated"); } }
+    let mut rg = Gen { rng: Rng::new(args.seed ^ 0x5245_4749) };
+    for i in 0..(if args.thorough { 3000 } else { 150 }) { let evs = registry_random(&mut rg); registry_case(&mut rec, &rt, !args.thorough && i % 10 == 0 || args.thorough && i % 25 == 0, &evs, "random"); }
     rec.extra.insert("servers".into(), serde_json::json!(srvs.iter().map(|s| format!("{} on {:?}", s.desc, s.addrs)).collect::<Vec<_>>()));
     rec.finish(&args, t0.elapsed().as_secs_f64());
     let _ = Arc::new(0);
